@@ -520,7 +520,7 @@ type Cluster struct {
 }
 
 // NewCluster returns an empty cluster.
-func NewCluster() *Cluster { return &Cluster{Net: &Net{}} }
+func NewCluster() *Cluster { QuietRaft(); return &Cluster{Net: &Net{}} }
 
 // AddNode attaches and opens a node.
 func (c *Cluster) AddNode(cfg NodeConfig) (*Node, error) {
